@@ -1380,6 +1380,16 @@ func (sc *serverConn) decodeHeaderBlock(fr *FrameHeader, rest *[]byte, nfields *
 				}
 
 				*rest = append(*rest, pb...)
+
+				// An unfinished field is not counted towards the header list
+				// yet, so the limit has to be applied to what is being kept for
+				// it as well: a literal that declares a huge length and never
+				// ends would otherwise be buffered for as long as CONTINUATION
+				// frames keep coming. A field longer than the whole list may be
+				// can never be accepted anyway.
+				if sc.maxHeaderList > 0 && len(*rest) > sc.maxHeaderList {
+					err = NewGoAwayError(EnhanceYourCalm, "header field exceeds the maximum header list size")
+				}
 			} else {
 				err = NewGoAwayError(CompressionError, err.Error())
 			}
